@@ -45,6 +45,29 @@ mod verif_session {
         }
     }
 
+    /// C13, history clause: after any sequence of applicable notifications the server's text is the client's text without CR
+    fn history(doc: &str, notifications: Vec<Vec<TextDocumentContentChangeEvent>>, expect: &str) {
+        let mut s = Server::new(ClientSocket::new_closed(), vec![]);
+        let uri = Url::parse("file:///verif_session/h.gleam").unwrap();
+        let _ = s.on_did_open(DidOpenTextDocumentParams {
+            text_document: TextDocumentItem { uri: uri.clone(), language_id: "gleam".into(), version: 1, text: doc.into() },
+        });
+        let mut version = 1;
+        for changes in notifications {
+            version += 1;
+            let r = std::panic::catch_unwind(AssertUnwindSafe(|| {
+                let _ = s.on_did_change(DidChangeTextDocumentParams {
+                    text_document: VersionedTextDocumentIdentifier { uri: uri.clone(), version },
+                    content_changes: changes,
+                });
+            }));
+            assert!(r.is_ok(), "VERIF-SYMPTOM on_did_change panicked");
+        }
+        let vfs = s.vfs.read().unwrap();
+        let file = vfs.file_for_uri(&uri).expect("VERIF-SYMPTOM document lost although every change was applicable");
+        assert_eq!(&*vfs.content_for_file(file), expect, "VERIF-SYMPTOM server text differs from the client's text (CR removed) after an edit history");
+    }
+
     #[tokio::test]
     async fn valid_then_valid() { scenario("a", vec![ch(Some((0, 0, 0, 0)), "x"), ch(Some((0, 2, 0, 2)), "y")], Some("xay")); }
     #[tokio::test]
